@@ -157,8 +157,8 @@ fn shape_honest_and_mutants<P: G>(cfg: Cfg, tier: Tier) -> Vec<Box<dyn Case>> {
         if cfg.m >= 1 {
             wit.promises[0] = Some(wit.values[0] / 2);
         }
-        let built = build_cached::<P>(&cfg, &wit).expect("valid");
-        let proof = lib_prove(&built, &CTX_A, &mut HRng::chacha(7)).expect("honest prove");
+        let built = build_cached::<P>(&cfg, &wit).honest();
+        let proof = lib_prove(&built, &CTX_A, &mut HRng::chacha(7)).honest();
         let bytes = P::to_bytes(&proof);
         let rp = match refbp::ref_decode(&bytes) {
             Some(p) => p,
@@ -199,7 +199,7 @@ fn shape_coefficients_f(cfg: Cfg) -> Box<dyn Case> {
         let mut wit = Wit::default_for(&cfg);
         wit.promises[cfg.m - 1] = Some(wit.values[cfg.m - 1] / 3);
         let built = f_statement(&cfg, &wit);
-        let proof = lib_prove(&built, &CTX_A, &mut HRng::chacha(8)).expect("honest prove");
+        let proof = lib_prove(&built, &CTX_A, &mut HRng::chacha(8)).honest();
         let rp = ref_proof_of(&proof).expect("decodes");
         if rp.l.is_empty() {
             // zero-round proofs cannot go through from_bytes (C15 known finding); nothing to mark
@@ -406,8 +406,13 @@ fn shape_dishonest<P: G>(cfg: Cfg) -> Box<dyn Case> {
                 // non-vacuity: the reference relation itself rejects the forgery attempt
                 let mut t2 = CTX_A.transcript();
                 let chk = refbp::ref_verify(&mut t2, &rst, &out.proof);
+                if chk.verdict == RefVerdict::Accept {
+                    res.machinery_error(format!("reference relation accepts forgery attempt {}", name));
+                    continue;
+                }
                 if chk.verdict != RefVerdict::Reject {
-                    res.machinery_error(format!("reference relation does not reject forgery attempt {}: {:?}", name, chk.verdict));
+                    // refused for its shape (e.g. an identity generator in the parameters): nothing algebraic to compare
+                    *res.outcome_counter("forgery-refused-by-shape(skipped)") += 1;
                     continue;
                 }
                 res.transitions += 1;
@@ -417,7 +422,7 @@ fn shape_dishonest<P: G>(cfg: Cfg) -> Box<dyn Case> {
             }
         }
         // sanity of the forgery machinery: honest digits through the same path ARE accepted by the library
-        let built = build_cached::<P>(&cfg, &base).unwrap();
+        let built = build_cached::<P>(&cfg, &base).honest();
         let rst = ref_statement(&built.statement);
         let digits = refbp::honest_digits(n, &base.values, &base.promises).unwrap();
         let nonces = Nonces {
@@ -436,8 +441,13 @@ fn shape_dishonest<P: G>(cfg: Cfg) -> Box<dyn Case> {
         let obs = verify_observed_one(&built.statement, &p, &CTX_A, VerifyAction::VerifyOnly);
         res.executions += 1;
         res.validated += 1;
-        if !obs.is_ok() {
-            res.violate("reference-prover-honest", format!("library rejects an honest proof made by the reference prover: {}", obs.describe()));
+        let mut t3 = CTX_A.transcript();
+        let expect = refbp::ref_verify(&mut t3, &rst, &out.proof).verdict.accepts();
+        if obs.is_ok() != expect {
+            res.violate(
+                "reference-prover-honest",
+                format!("an honest proof made by the reference prover: library says {}, the reference verifier says accept = {}", obs.describe(), expect),
+            );
         }
         res
     })
@@ -450,8 +460,8 @@ fn shape_wrong_shape<P: G>(cfg: Cfg) -> Box<dyn Case> {
         let mut res = CaseResult::new("explored");
         let k = cfg.rounds();
         let wit = Wit::default_for(&cfg);
-        let built = build_cached::<P>(&cfg, &wit).unwrap();
-        let proof = lib_prove(&built, &CTX_A, &mut HRng::chacha(9)).expect("honest");
+        let built = build_cached::<P>(&cfg, &wit).honest();
+        let proof = lib_prove(&built, &CTX_A, &mut HRng::chacha(9)).honest();
         let rp = ref_proof_of(&proof).unwrap();
         let filler = built.params.h_base().g_compress();
         let mut round_counts: Vec<usize> = (1..=k + 2).filter(|x| *x != k).collect();
@@ -484,8 +494,8 @@ fn env_deviations<P: G>(cfg: Cfg) -> Box<dyn Case> {
         fg::clear_intern();
         let mut res = CaseResult::new("explored");
         let wit = Wit::default_for(&cfg);
-        let built = build_cached::<P>(&cfg, &wit).unwrap();
-        let proof = lib_prove(&built, &CTX_A, &mut HRng::chacha(10)).expect("honest");
+        let built = build_cached::<P>(&cfg, &wit).honest();
+        let proof = lib_prove(&built, &CTX_A, &mut HRng::chacha(10)).honest();
         let draws = 3 + cfg.rounds();
         for i in 0..draws {
             // verifier
@@ -567,8 +577,8 @@ fn shape_batches<P: G>(cfg: Cfg) -> Box<dyn Case> {
                     wit.blindings[j][k] = blinding(300 + pos * 40 + j, k);
                 }
             }
-            let built = build_cached::<P>(&cfg, &wit).expect("valid");
-            let proof = lib_prove(&built, &CTX_A, &mut HRng::chacha(70 + pos as u64)).expect("honest");
+            let built = build_cached::<P>(&cfg, &wit).honest();
+            let proof = lib_prove(&built, &CTX_A, &mut HRng::chacha(70 + pos as u64)).honest();
             let rp = ref_proof_of(&proof).unwrap();
             let rst = ref_statement(&built.statement);
             for (_, sign, k) in &kinds {
@@ -589,10 +599,10 @@ fn shape_batches<P: G>(cfg: Cfg) -> Box<dyn Case> {
         // a member whose proof was made under another transcript context than the one it is presented with
         {
             let wit = Wit::default_for(&cfg);
-            let built = build_cached::<P>(&cfg, &wit).expect("valid");
+            let built = build_cached::<P>(&cfg, &wit).honest();
             let other_ctx = contexts()[4];
-            let made_under_a = lib_prove(&built, &CTX_A, &mut HRng::chacha(72)).expect("honest");
-            let honest_b = lib_prove(&built, &other_ctx, &mut HRng::chacha(73)).expect("honest");
+            let made_under_a = lib_prove(&built, &CTX_A, &mut HRng::chacha(72)).honest();
+            let honest_b = lib_prove(&built, &other_ctx, &mut HRng::chacha(73)).honest();
             for (name, first_proof, first_ctx, second_proof, second_ctx, expect) in [
                 ("[honest@A, made-under-A-presented-with-B]", &made_under_a, CTX_A, &made_under_a, other_ctx, false),
                 ("[honest@A, honest@B]", &made_under_a, CTX_A, &honest_b, other_ctx, true),
